@@ -118,6 +118,9 @@ def _shard(task):
     }
 
     def body(case):
+        st['calls'] = st.get('calls', 0) + 1
+        if shard > 0 and st['calls'] == 1:
+            return      # Hypothesis starts every run with the same minimal example: only shard 0 spends a case on it
         if time.time() > deadline or st.get('stop'):
             st['skipped'] += 1
             return
@@ -151,7 +154,7 @@ def _shard(task):
                 st['failures'][out.kind] = (size, case, out.detail)
 
     test = given(sub.strategy(tier))(body)
-    test = settings(max_examples=n, database=None, deadline=None,
+    test = settings(max_examples=n + (1 if shard > 0 else 0), database=None, deadline=None,
                     derandomize=False, report_multiple_bugs=False,
                     phases=[Phase.generate],
                     suppress_health_check=list(HealthCheck))(test)
